@@ -4,7 +4,7 @@
 From Coq Require Import ZArith List Bool.
 From BV Require Import Lib.PyVal Gen.K_laxsem Model.LaxSem Proofs.LaxSemProofs.
 From BV Require Gen.G_pool_shape Model.Pool Proofs.PoolSup Proofs.PoolSem Gen.G_laxsem_atomic.
-From BV Require Model.PoolSys Proofs.PoolSysProofs.
+From BV Require Model.PoolSys Proofs.PoolSysProofs Proofs.PoolRefuted.
 Import ListNotations.
 Open Scope Z_scope.
 
@@ -120,6 +120,18 @@ Theorem C10_all_slots_back_at_the_end : forall c n y,
     LaxSem.value (Pool.sem (PoolSys.par y)) = LaxSem.bound (Pool.sem (PoolSys.par y)).
 Proof. exact PoolSysProofs.all_slots_back. Qed.
 Print Assumptions C10_all_slots_back_at_the_end.
+
+
+(* ---- not satisfied by the pinned tree (known finding C10:more-slot-holders-than-slots): the
+   first result of a map job, which took no slot, gives one back *)
+Theorem C10_never_more_admitted_than_slots_refuted :
+  exists c tr,
+    Pool.putlocks (Pool.run c tr) = true
+    /\ Z.of_nat (length (filter (fun x => match Pool.kind x with Pool.KApply => negb (Pool.ready x) | _ => false end)
+                                (Pool.jobs (Pool.run c tr))))
+       > LaxSem.bound (Pool.sem (Pool.run c tr)).
+Proof. exact PoolRefuted.more_slot_holders_than_slots. Qed.
+Print Assumptions C10_never_more_admitted_than_slots_refuted.
 
 Example C10_witness :
   srun (sem_init 2) [Acquire; Acquire; Acquire; Release; Release; Release; ShrinkStart; ShrinkFinish; Grow; Clear]
